@@ -155,6 +155,7 @@ func (s *IndexedState) Load(ctx *Context) error {
 		Log(ERROR, ctx, "IndexedState.Load", "location", s.Name, "error", err, "when", "Store.Load")
 		return err
 	}
+	var expired []string
 	for _, pair := range pairs {
 		id := string(pair.K)
 		bs := pair.V
@@ -173,10 +174,21 @@ func (s *IndexedState) Load(ctx *Context) error {
 					Log(ERROR, ctx, "IndexedState.Load", "location", s.Name, "error", err, "when", "rem", "id", id)
 					return err
 				}
+				expired = append(expired, id)
 			} else {
 				Log(ERROR, ctx, "IndexedState.Load", "location", s.Name, "error", err, "when", "Store.Add", "pair", pair)
 				return err
 			}
+		}
+	}
+
+	// What depended ('deleteWith') on a fact that we found expired
+	// goes, too, as it would have if the fact had expired while
+	// we were loaded.  Now that everything is in.
+	for _, id := range expired {
+		if err := s.deleteDependencies(ctx, id); err != nil {
+			Log(ERROR, ctx, "IndexedState.Load", "location", s.Name, "error", err, "when", "deleteDependencies", "id", id)
+			return err
 		}
 	}
 
